@@ -113,6 +113,9 @@ def observe(counts, groups_text, handler_level):
     again = ignore_warnings_and_count(counter, [[tuple(x) if isinstance(x, list) else x for x in g] for g in parsed])
     if again != left:
         left = ('second-call-differs', left, again)
+    # ... and afterwards with no allowance at all, and the handler's own tally: what was waived above is still on record
+    counter.verif_after = {'no_allowance': ignore_warnings_and_count(counter, []),
+                           'tally': counter.number_of_counts_by(level=logging.WARNING)}
     base.removeHandler(counter)
     logging.Logger.manager.loggerDict.pop(base.name, None)
     return left, parsed, counter
@@ -138,6 +141,14 @@ def check_one(counts, groups_text, handler_level=logging.WARNING):
     lo, hi = reference(norm, exp_parsed)
     if lo != hi:
         feats['unspecified_combination'] = 1
+    lo0, hi0 = reference(norm, [])
+    tally = sum(n for (lvl, t), n in norm.items() if lvl >= logging.WARNING)   # "by level" counts that level and above
+    after = counter.verif_after
+    feats['history_no_allowance_after'] = 1
+    if not lo0 <= after['no_allowance'] <= hi0 or after['tally'] != tally:
+        return False, {'kind': 'history', 'after_evaluating': groups_text, 'left_without_allowance': after['no_allowance'],
+                       'expected_range': [lo0, hi0], 'handler_tally': after['tally'], 'warnings_logged': tally,
+                       'counts': {'%s/%s' % k: v for k, v in norm.items()}}, False, feats, 'history/evaluation-consumed-records'
     ok = lo <= left <= hi
     detail = None
     key = None
